@@ -148,7 +148,10 @@ LAYOUT_TEMPLATES = [
 
 REF_KINDS = ["none", "inline", "external_rel", "external_abs", "missing", "eisdir", "eacces", "bad_base64",
              "bad_json", "garbage_file", "index_inline", "index_external", "empty_url", "no_comma", "charset_inline",
-             "block_comment", "two_comments", "huge", "empty_file", "comment_midfile"]
+             "block_comment", "two_comments", "huge", "empty_file", "comment_midfile", "long_missing", "long_external"]
+
+# 63 ASCII bytes, then a two-byte character straddling byte 64
+LONG_URL = "m" * 63 + "\u00e9/\u4e2d\u6587-bundle.js.map"
 
 
 def make_case(rng, code, kind, chain, comments, style, file="/w/src/app.js", parent="default"):
@@ -178,6 +181,12 @@ def make_case(rng, code, kind, chain, comments, style, file="/w/src/app.js", par
         usable = True
     elif kind == "missing":
         ref = "//# sourceMappingURL=nowhere.map"
+    elif kind == "long_missing":
+        ref = "//# sourceMappingURL=" + LONG_URL
+    elif kind == "long_external":
+        ref = "//# sourceMappingURL=" + LONG_URL
+        reader["files"][os.path.join(d, LONG_URL)] = {"kind": "ok", "content": omap_text}
+        usable = parent != "none" or None
     elif kind in ("eisdir", "eacces", "huge"):
         ref = "//# sourceMappingURL=app.js.map"
         reader["files"][os.path.join(d, "app.js.map")] = {"kind": kind, "size": 1 << 20}
@@ -273,7 +282,8 @@ def cases(seed, tier, model_tuples=None):
     # unusual but legal file names (a backslash is an ordinary character on a '/'-separated host; names that
     # look like V8's virtual ones): the map's only source is still the base name, every position resolves
     for fn in ["/srv/app/generated\\join.js", "dist\\join.js", "<anonymous>", "<eval>/join.js", "/srv/app/lib/<generated>.js",
-               "/w/a b/c d.js", "/w/a/b.c.min.js", "/w/\u00fc/\u00f1.js", "/w/a/%41.js", "/w/a/#x?.js"]:
+               "/w/a b/c d.js", "/w/a/b.c.min.js", "/w/\u00fc/\u00f1.js", "/w/a/%41.js", "/w/a/#x?.js",
+               "/srv/app/cafe\u0301.js", "/w/a/del\x7fete.js", "/w/a/tab\tname.js", "/w/a/quote\"s'.js", "/w/a/\U0001F600.js"]:
         for ref in ("none", "inline"):
             c = make_case(rng, LAYOUT_TEMPLATES[rng.randrange(len(LAYOUT_TEMPLATES))], ref, True, rng.random() < 0.5, "random", file=fn)
             c["name"] = "name/%r/%s" % (fn, ref)
